@@ -691,12 +691,16 @@ class Problem(  # type: ignore[misc]
                     or arg.is_always()
                 ), "trajectory constraint not in the correct form"
         else:
+            # a Boolean constant is what a trivially true/false constraint simplifies
+            # to below (e.g. Always(true)), so it must be accepted when a compiler
+            # or a clone adds the stored constraints of a problem again
             assert (
                 constraint.is_sometime()
                 or constraint.is_sometime_after()
                 or constraint.is_sometime_before()
                 or constraint.is_at_most_once()
                 or constraint.is_always()
+                or constraint.is_bool_constant()
             ), "trajectory constraint not in the correct form"
         self._trajectory_constraints.append(constraint.simplify())
 
